@@ -161,10 +161,12 @@ impl SampleQueueReceiver {
         loop {
             {
                 let _guard = self.pop_lock.lock();
+                // `closed` must be read before the pop (see SampleStreamTrack::recv).
+                let closed = self.closed.load(std::sync::atomic::Ordering::Acquire);
                 if let Some(sample) = self.queue.pop() {
                     return Some(sample);
                 }
-                if self.closed.load(std::sync::atomic::Ordering::Acquire) {
+                if closed {
                     return None;
                 }
             }
